@@ -185,21 +185,30 @@ pub struct ListCase {
     /// (gap before this extent, length); gap 0 = touching
     pub items: Vec<(u64, u64)>,
     pub base: u64,
+    /// per item: start this many bytes before the end of the previous extent (overlap / nesting), never
+    /// before the previous start (the list stays sorted by start)
+    #[serde(default)]
+    pub backs: Vec<u64>,
 }
 
 pub fn list_strategy() -> BoxedStrategy<ListCase> {
     let gap = prop_oneof![3 => Just(0u64), 3 => Just(1u64), 1 => Just(2u64), 2 => 2u64..10000, 1 => Just(4096u64), 1 => (1u64 << 32)..(1u64 << 40)];
     let len = prop_oneof![2 => Just(1u64), 2 => 1u64..100000, 1 => Just(4096u64), 1 => (1u64 << 30)..(1u64 << 36)];
-    (prop::collection::vec((gap, len), 0..40), prop_oneof![3 => Just(0u64), 1 => 1u64..10000, 1 => Just(1u64 << 50)]).prop_map(|(items, base)| ListCase { items, base }).boxed()
+    (prop::collection::vec((gap, len), 0..40), prop_oneof![3 => Just(0u64), 1 => 1u64..10000, 1 => Just(1u64 << 50)], prop_oneof![3 => Just(vec![]), 1 => prop::collection::vec(prop_oneof![2 => Just(0u64), 1 => 1u64..5000], 1..40)])
+        .prop_map(|(items, base, backs)| ListCase { items, base, backs })
+        .boxed()
 }
 
 pub fn list_of(c: &ListCase) -> Vec<(u64, u64)> {
-    let mut v = vec![];
+    let mut v: Vec<(u64, u64)> = vec![];
     let mut pos = c.base;
-    for (g, l) in &c.items {
-        let s = pos + g;
+    let mut prev_start = c.base;
+    for (i, (g, l)) in c.items.iter().enumerate() {
+        let back = c.backs.get(i).copied().unwrap_or(0);
+        let s = if back > 0 { std::cmp::max(prev_start, pos.saturating_sub(back)) } else { pos + g };
         v.push((s, s + l));
-        pos = s + l;
+        prev_start = s;
+        pos = std::cmp::max(pos, s + l);
     }
     v
 }
@@ -226,6 +235,9 @@ pub fn judge_list(c: &ListCase, rec: &mut Rec) -> Verdict {
     };
     let touching = input.windows(2).filter(|w| w[1].0 == w[0].1).count();
     let onegap = input.windows(2).filter(|w| w[1].0 == w[0].1 + 1).count();
+    if input.windows(2).any(|w| w[1].0 < w[0].1) {
+        rec.class("list|overlapping-inputs");
+    }
     rec.class(format!("list|n={}|touching={}|gap1={}", match input.len() { 0 => "0", 1 => "1", 2..=8 => "2-8", _ => "9+" }, std::cmp::min(touching, 2), std::cmp::min(onegap, 2)));
     if input.len() >= 2 && (touching > 0 || onegap > 0) {
         rec.nontrivial(case_hash(c));
@@ -261,7 +273,7 @@ pub fn decode_fuzz(data: &[u8]) -> ListCase {
         let len = match varint(data, &mut pos) { Some(v) => v + 1, None => break };
         items.push((gap, len));
     }
-    ListCase { items, base: 0 }
+    ListCase { items, base: 0, backs: vec![] }
 }
 
 /// (c) coverage-guided campaign (thorough tier): libFuzzer with the merge laws inside the target
@@ -334,6 +346,49 @@ impl Check for C19 {
         if ctx.tier == Tier::Thorough && ctx.shard == 1 % ctx.nshards {
             fuzz_campaign(ctx, rec);
         }
+        if ctx.shard == 2 % ctx.nshards {
+            if let Ok(sb) = Sandbox::new() {
+                let (u, n) = if ctx.tier == Tier::Quick { (7u64, 4usize) } else { (9u64, 5usize) };
+                let mut spec = probe_spec(&sb, &["merge-exhaustive-overlap", &u.to_string(), &n.to_string()], None);
+                spec.timeout = std::time::Duration::from_secs(600);
+                let out = run_plain(&spec);
+                match serde_json::from_slice::<Value>(&out.stdout) {
+                    Ok(v) => {
+                        let lists = v.get("lists").and_then(|x| x.as_u64()).unwrap_or(0);
+                        rec.eval(lists);
+                        rec.count("exhaustive_overlap_lists", lists as i64);
+                        rec.class(format!("exhaustive-overlap|U={}|n<={}", u, n));
+                        if let Some(viol) = v.get("violation") {
+                            if !viol.is_null() {
+                                let sig = format!("C19|merge|{}", law_kind(viol.get("why").and_then(|w| w.as_str()).unwrap_or("")));
+                                if let Some(k) = ctx.is_known(&sig) {
+                                    *rec.known_hits.entry(format!("{}: {}", k.signature, k.what)).or_insert(0) += 1;
+                                } else {
+                                    // express as a ListCase: first extent by gap, the others by 'back'
+                                    let input: Vec<(u64, u64)> = viol.get("input").and_then(pairs).unwrap_or_default();
+                                    let mut items = vec![];
+                                    let mut backs = vec![];
+                                    let mut pos = 0u64;
+                                    for (s, e) in &input {
+                                        if *s >= pos {
+                                            items.push((s - pos, e - s));
+                                            backs.push(0);
+                                        } else {
+                                            items.push((0, e - s));
+                                            backs.push(pos - s);
+                                        }
+                                        pos = std::cmp::max(pos, *e);
+                                    }
+                                    let lc = ListCase { items, base: 0, backs };
+                                    rec.failures.push(Failure { property: "C19".into(), sub: "list".into(), signature: sig, reason: format!("exhaustive enumeration with overlaps (U={}): {}", u, viol), case: serde_json::to_value(&lc).unwrap(), details: viol.clone() });
+                                }
+                            }
+                        }
+                    }
+                    Err(e) => rec.inconclusive.push(format!("exhaustive-overlap probe output: {e}")),
+                }
+            }
+        }
         if ctx.shard == 0 {
             // exhaustive enumeration inside the probe (one process)
             if let Ok(sb) = Sandbox::new() {
@@ -362,7 +417,7 @@ impl Check for C19 {
                                     items.push((s - pos, e - s));
                                     pos = *e;
                                 }
-                                let lc = ListCase { items, base: 0 };
+                                let lc = ListCase { items, base: 0, backs: vec![] };
                                 let sig = format!("C19|merge|{}", law_kind(viol.get("why").and_then(|w| w.as_str()).unwrap_or("")));
                                 if let Some(k) = ctx.is_known(&sig) {
                                     *rec.known_hits.entry(format!("{}: {}", k.signature, k.what)).or_insert(0) += 1;
@@ -397,6 +452,6 @@ impl Check for C19 {
         }
     }
     fn required_classes(&self, _tier: Tier) -> Vec<String> {
-        ["extents=>32", "extents=2-32", "extents=1|", "unaligned", "tail-data", "tail-hole", "data-at-0", "synced", "delalloc", "delalloc|prealloc", "list|n=9+", "touching=2", "gap1=2", "exhaustive|"].iter().map(|s| s.to_string()).collect()
+        ["extents=>32", "extents=2-32", "extents=1|", "unaligned", "tail-data", "tail-hole", "data-at-0", "synced", "delalloc", "delalloc|prealloc", "list|n=9+", "touching=2", "gap1=2", "exhaustive|", "list|overlapping-inputs", "exhaustive-overlap|"].iter().map(|s| s.to_string()).collect()
     }
 }
